@@ -57,6 +57,8 @@ def campaign_c14(seed, tier):
         scs.append(sc_schedule("c14-tick-%d" % i, rng.randrange(1 << 30), 80, long_gaps=True))
     for i in range(6 if tier == "quick" else 100):
         scs.append(sc_idle_engine("c14-idle-%d" % i, rng.randrange(1 << 30)))
+    for i in range(1 if tier == "quick" else 10):
+        scs.append(sc_wear("c14-wear-%d" % i, rng.randrange(1 << 30), "mapping"))
     return scs
 
 
@@ -79,6 +81,8 @@ def campaign_c15(seed, tier):
             else:
                 lines.append("SSTEP %d" % rng.randrange(0, 8))
         scs.append(Scenario("c15-hist-%d" % i, lines))
+    for i in range(2 if tier == "quick" else 20):
+        scs.append(sc_wear("c15-wear-%d" % i, rng.randrange(1 << 30), "session"))
     return scs
 
 
@@ -313,6 +317,55 @@ def sc_idle_engine(name, seed):
     return Scenario(name, lines)
 
 
+def sc_two_interfaces(name, seed):
+    """Two interfaces of one responder process, each with its own session and its own periodic Hellos, their
+    ticks and frames interleaved: the pacing of one interface is none of the other's business."""
+    rng = random.Random(seed)
+    lines = ["CLOCK %d" % rng.choice([1000, 0, 5000, 123456000]), "NEW", "INST 1", "NEW", "INST 0"]
+    f0 = discover(0, key_mac(1), gen=1, seq=1, stations=[key_mac(9)])
+    f1 = discover(rng.choice([0, 1]), key_mac(2), gen=2, seq=1, stations=[key_mac(8)])
+    lines.append("GLUE %d 0 %s" % (len(f0), f0.hex()))
+    lines.append("ADV %d" % rng.choice([0, 10, 50, 120, 400, 999]))
+    lines += ["INST 1", "GLUE %d 0 %s" % (len(f1), f1.hex()), "INST 0"]
+    step = rng.choice([10, 50, 100])
+    t = 0
+    while t < 6000:
+        lines.append("ADV %d" % step)
+        t += step
+        order = [0, 1] if rng.random() < 0.7 else [1, 0]
+        for k in order:
+            lines += ["INST %d" % k, "TICK"]
+            x = rng.random()
+            if x < 0.03:
+                h = hello(0, key_mac(20 + rng.randrange(5)), 1, key_mac(1 + k), key_mac(1 + k))
+                lines.append("GLUE %d 0 %s" % (len(h), h.hex()))
+            elif x < 0.04:
+                f = f0 if k == 0 else f1
+                lines.append("GLUE %d 0 %s" % (len(f), f.hex()))
+    lines.append("INST 0")
+    return Scenario(name, lines)
+
+
+def sc_wear(name, seed, which):
+    """a long-lived engine: several hundred passes through every state (counters, histories and tables inside the
+    engine must not wear out)"""
+    rng = random.Random(seed)
+    lines = ["NEW"]
+    if which == "session":
+        for i in range(320):
+            lines += ["SSTEP 2", "SSTEP %d" % rng.choice([3, 5]), "SSTEP %d" % rng.choice([4, 4, 6, 7]), "SSTEP 1"]
+            if i % 3 == 0:
+                lines += ["SSTEP 0", "SSTEP %d" % rng.choice([6, 7])]
+            if i % 5 == 0:
+                lines += ["SSTEP 2", "ADV 2000", "SSTEP 6"]
+    else:
+        for i in range(320):
+            lines += ["MSTEP 0", "MSTEP 2", "MSTEP -3", "MSTEP %d" % rng.choice([8, 8, 2])]
+            if i % 4 == 0:
+                lines += ["MSTEP 8", "MSTEP 0", "ADV 6000", "MSTEP 4"]
+    return Scenario(name, lines)
+
+
 def sc_schedule(name, seed, n, long_gaps=False):
     """interleavings of tick, clock advance, session add/refresh/complete/remove/clear, Hello heard,
     frames through the Darwin frame path"""
@@ -370,6 +423,8 @@ def campaign_c12(seed, tier):
         scs.append(sc_schedule("c12-sched-%d" % i, rng.randrange(1 << 30), 250, long_gaps=(i % 3 == 0)))
     for i in range(6 if tier == "quick" else 100):
         scs.append(sc_idle_engine("c12-idle-%d" % i, rng.randrange(1 << 30)))
+    for i in range(3 if tier == "quick" else 60):
+        scs.append(sc_two_interfaces("c12-twoif-%d" % i, rng.randrange(1 << 30)))
     # long silences (no tick, no frame) followed by table changes made without a tick in between
     for gi, gap in enumerate([1000, 29000, 59000, 60000, 61000, 100000]):
         for variant in ("complete", "remove", "clear", "keep"):
